@@ -125,7 +125,33 @@ func runC16(c *Ctx) {
 						okRead, why = false, "Peek must return the read element's value and change nothing"
 					}
 				} else {
-					if len(calls) != 2 || calls[1].Kind != "call" || calls[1].Name != "lists.(*List).Remove" || !isListAddr(calls[1].Args[0]) || calls[1].Args[1].Key() != elem.Key() {
+					// List.Remove written out: `if e.list == l { l.remove(e) }; return e.Value` (what Remove itself does)
+					inlineRemove := false
+					{
+						owned := ""
+						for _, cd := range p.Conds {
+							r := cd.Rel()
+							if r.B == nil || (r.Op != "==" && r.Op != "!=") {
+								continue
+							}
+							a, b := r.A, r.B
+							if isListAddr(a) {
+								a, b = b, a
+							}
+							if a.Op == "load" && a.Args[0].Op == "faddr" && a.Args[0].Obj.Name() == "list" && a.Args[0].Args[0].Key() == elem.Key() && isListAddr(b) {
+								owned = r.Op
+							}
+						}
+						switch owned {
+						case "==":
+							inlineRemove = len(calls) == 2 && calls[1].Kind == "call" && calls[1].Name == "lists.(*List).remove" && isListAddr(calls[1].Args[0]) && calls[1].Args[1].Key() == elem.Key() && isElemValue
+						case "!=":
+							inlineRemove = len(calls) == 1 && isElemValue
+						}
+					}
+					if inlineRemove {
+						// accepted
+					} else if len(calls) != 2 || calls[1].Kind != "call" || calls[1].Name != "lists.(*List).Remove" || !isListAddr(calls[1].Args[0]) || calls[1].Args[1].Key() != elem.Key() {
 						okRead, why = false, "Dequeue must remove exactly the element it read (one Remove of it) and do nothing else"
 					} else if !(val.Key() == calls[1].Res.Key() || isElemValue) {
 						okRead, why = false, "Dequeue does not return the removed element's value"
